@@ -237,6 +237,13 @@ impl SFile {
     }
 }
 
+/// A clone has its own copy of the data and position and shares the controller.
+impl Clone for SFile {
+    fn clone(&self) -> SFile {
+        SFile { data: self.data.clone(), pos: self.pos, ctl: self.ctl.clone(), live: None }
+    }
+}
+
 impl Drop for SFile {
     fn drop(&mut self) {
         if let Some(l) = &self.live {
